@@ -1160,8 +1160,9 @@ static int runHistory(const Config &c)
     ompl::RNG::setSeed(c.seed);
     vp::quietLogs();
     std::signal(SIGABRT, onAbort);
-    if (c.planner != "RRT")
-        throw vp::ParseError("history is RRT only");
+    const bool isC = c.planner == "RRTConnect";
+    if (c.planner != "RRT" && !isC)
+        throw vp::ParseError("history is RRT / RRTConnect only");
     size_t i = 0;
     ob::StateSpacePtr space = vp::parseSpaceX(c.space, i);
     if (i != c.space.size())
@@ -1194,23 +1195,53 @@ static int runHistory(const Config &c)
     for (const auto &st : c.starts)
         pdef->addStartState(parseState(st));
     ob::State *goalState = parseState(c.goal);
-    auto gs = std::make_shared<ob::GoalState>(si);
-    gs->setState(goalState);
+    std::shared_ptr<ob::GoalSampleableRegion> gs;
+    if (c.moreGoals.empty())
+    {
+        auto g1 = std::make_shared<ob::GoalState>(si);
+        g1->setState(goalState);
+        gs = g1;
+    }
+    else
+    {
+        auto gN = std::make_shared<ob::GoalStates>(si);
+        gN->addState(goalState);
+        for (const auto &gt : c.moreGoals)
+            gN->addState(parseState(gt));
+        gs = gN;
+    }
     gs->setThreshold(c.thr);
     auto rg = std::make_shared<RecGoal>(si, gs, draws);
     rg->setThreshold(c.thr);
     pdef->setGoal(rg);
     pdef->setOptimizationObjective(std::make_shared<ob::PathLengthOptimizationObjective>(si));
-    auto planner = std::make_shared<PeekRRT>(si, c.hasInterm && c.interm);
-    if (c.hasRange)
-        planner->setRange(c.range);
-    if (c.hasBias)
-        planner->setGoalBias(c.bias);
-    planner->setProblemDefinition(pdef);
-    planner->setNearestNeighbors<ompl::NearestNeighborsLinear>();  // clears, installs, calls setup()
+    std::shared_ptr<PeekRRT> planner;
+    std::shared_ptr<PeekRRTConnect> plannerC;
+    ob::PlannerPtr base;
+    if (isC)
+    {
+        plannerC = std::make_shared<PeekRRTConnect>(si, c.hasInterm && c.interm);
+        base = plannerC;
+        if (c.hasRange)
+            plannerC->setRange(c.range);
+        plannerC->setProblemDefinition(pdef);
+        plannerC->setNearestNeighbors<ompl::NearestNeighborsLinear>();
+    }
+    else
+    {
+        planner = std::make_shared<PeekRRT>(si, c.hasInterm && c.interm);
+        base = planner;
+        if (c.hasRange)
+            planner->setRange(c.range);
+        if (c.hasBias)
+            planner->setGoalBias(c.bias);
+        planner->setProblemDefinition(pdef);
+        planner->setNearestNeighbors<ompl::NearestNeighborsLinear>();  // clears, installs, calls setup()
+    }
+    auto rangeNow = [&]() { return isC ? plannerC->getRange() : planner->getRange(); };
     std::cout << "cfg lvs=" << vp::bits(space->getLongestValidSegmentLength()) << " extent=" << vp::bits(space->getMaximumExtent())
               << " res=" << vp::bits(space->getLongestValidSegmentFraction()) << " dim=" << space->getDimension()
-              << " range=" << vp::bits(planner->getRange()) << "\n";
+              << " range=" << vp::bits(rangeNow()) << "\n";
     auto splitComma = [](const std::string &v) {
         std::vector<std::string> out;
         std::string cur;
@@ -1255,7 +1286,7 @@ static int runHistory(const Config &c)
             std::string err;
             try
             {
-                st = planner->solve(vp::evalCountPtc(cnt));
+                st = base->solve(vp::evalCountPtc(cnt));
             }
             catch (const std::exception &e)
             {
@@ -1274,7 +1305,13 @@ static int runHistory(const Config &c)
             const std::size_t after = pdef->getSolutionCount();
             std::cout << H << "status=" << (err.empty() ? vp::statusName(st) : std::string("EXCEPTION")) << " bool="
                       << (err.empty() && st ? 1 : 0) << " added=" << (after > before ? 1 : 0) << "\n";
-            std::cout << H << planner->dumpTree() << "\n";
+            if (isC)
+            {
+                std::cout << H << plannerC->dumpTree(true) << "\n";
+                std::cout << H << plannerC->dumpTree(false) << "\n";
+            }
+            else
+                std::cout << H << planner->dumpTree() << "\n";
             auto sols = pdef->getSolutions();
             std::sort(sols.begin(), sols.end(),
                       [](const ob::PlannerSolution &a, const ob::PlannerSolution &b) { return a.index_ < b.index_; });
@@ -1299,26 +1336,36 @@ static int runHistory(const Config &c)
             if (sols.empty())
                 std::cout << "-";
             std::cout << "\n";
-            std::cout << H << "misc nstart=" << planner->getPlannerInputStates().getSeenStartStatesCount()
-                      << " lgm=" << planner->lastGoalIndex() << " range=" << vp::bits(planner->getRange())
-                      << " interm=" << (planner->getIntermediateStates() ? 1 : 0) << " thr=" << vp::bits(rg->getThreshold()) << "\n";
+            if (isC)
+                std::cout << H << "misc nstart=" << base->getPlannerInputStates().getSeenStartStatesCount()
+                          << " ngoal=" << base->getPlannerInputStates().getSampledGoalsCount()
+                          << " starttree=" << (plannerC->startTreeFlag() ? 1 : 0) << " range=" << vp::bits(rangeNow()) << "\n";
+            else
+                std::cout << H << "misc nstart=" << planner->getPlannerInputStates().getSeenStartStatesCount()
+                          << " lgm=" << planner->lastGoalIndex() << " range=" << vp::bits(planner->getRange())
+                          << " interm=" << (planner->getIntermediateStates() ? 1 : 0) << " thr=" << vp::bits(rg->getThreshold()) << "\n";
         }
         else if (op == "clear")
-            planner->clear();
+            base->clear();
         else if (op == "addstart")
             pdef->addStartState(parseState(splitComma(arg)));
         else if (op == "range")
-            planner->setRange(bitsArg());
+        {
+            if (isC)
+                plannerC->setRange(bitsArg());
+            else
+                planner->setRange(bitsArg());
+        }
         else if (op == "thr")
         {
             gs->setThreshold(bitsArg());
             rg->setThreshold(bitsArg());
         }
-        else if (op == "interm" && (arg == "0" || arg == "1"))
+        else if (op == "interm" && (arg == "0" || arg == "1") && !isC)
             planner->setIntermediateStates(arg == "1");
-        else if (op == "bias")
+        else if (op == "bias" && !isC)
             planner->setGoalBias(bitsArg());
-        else if (op == "setup")
+        else if (op == "setup" && !isC)
             planner->setup();
         else if (op == "clearsol")
             pdef->clearSolutionPaths();
